@@ -535,7 +535,9 @@ class Translator:
                 return self.expr(args[0], d, env)
             why = getattr(self, "inline_failed", {}).get(f.id)
             raise Refusal(f"call of unknown function {f.id}" + (f" (not expanded in place: {why})" if why else ""))
-        raise Refusal(f"call {ast.unparse(e)}")
+        failed = getattr(self, "inline_failed", {})
+        why = failed.get(ast.unparse(f)) or (failed.get(f.attr) if isinstance(f, ast.Attribute) else None)
+        raise Refusal(f"call {ast.unparse(e)}" + (f" (not expanded in place: {why})" if why else ""))
 
     def call_ext(self, e, d, env):
         """call of a translated function that has tuple / absent (None) parameters, or with *tuple"""
